@@ -11,6 +11,13 @@
    `REPRO cluster-detach`  predicts, by exhaustive search of the lock-table model over
      the extracted scripts of SDK PushPullChanges, cluster DetachDocument and cluster
      CompactDocument (same client and document), whether a stuck state is reachable.
+   `REPRO last-detachers a=<detach|deactivate> b=<detach|deactivate>`  the last two holders of a
+     document of a RemoveOnDetach project without attachment limit leave it concurrently, the
+     first request held between its decision "is anyone else attached?" and its PushPull.
+     Predicted from the extracted facts: when both handlers take `doc.attachment` under a
+     condition that mentions `project.RemoveOnDetach`, the second request waits at that lock
+     and the document ends up removed; otherwise both requests get past their decision, each
+     sees the other attached, and the document survives.
    `LOAD …`  the load itself has no model counterpart. -/
 import YorkieModel.Driver.Proto
 import YorkieModel.Model.Locks
@@ -70,6 +77,25 @@ def reproScripts : List (List (Op String)) :=
     | some i => flatLocal i
     | none => [])
 
+/-- handler behind the way a client leaves a document -/
+def leaveHandler : String → Option String
+  | "a=detach" | "b=detach" => some "server/rpc.yorkieServer.DetachDocument"
+  | "a=deactivate" | "b=deactivate" => some "server/rpc.clusterServer.DetachDocument"
+  | _ => none
+
+/-- the handler takes `doc.attachment` in a RemoveOnDetach project without attachment limit:
+    the site is unconditional or its condition mentions `project.RemoveOnDetach` -/
+def locksOnRemoveOnDetach (handler : String) : Bool :=
+  sites.any (fun s => s.fn == handler && s.cls == "DocAttachmentKey" &&
+    (s.cond == "" || (s.cond.splitOn "project.RemoveOnDetach").length > 1))
+
+def lastDetachers (a b : String) : String :=
+  match leaveHandler a, leaveHandler b with
+  | some ha, some hb =>
+    if locksOnRemoveOnDetach ha && locksOnRemoveOnDetach hb then "second=attachment-lock attached=false removed=true"
+    else "second=push attached=false removed=false"
+  | _, _ => "bad-op"
+
 def step (s : Unit) (toks : List String) : Unit × List String :=
   match toks with
   | "LOAD" :: _ => (s, ["LOAD-DONE"])
@@ -79,6 +105,7 @@ def step (s : Unit) (toks : List String) : Unit × List String :=
     | some [] => (s, ["bad-seq"])
     | some obs =>
       (s, [(if isInstance handler obs then "ok " else "not-instance ") ++ verdict obs])
+  | ["REPRO", "last-detachers", a, b] => (s, [lastDetachers a b])
   | ["REPRO", "cluster-detach"] =>
     (s, [match findStuck 200 [initState reproScripts] [] with
          | some _ => "deadlock=true"
